@@ -10,8 +10,12 @@ _NUM = re.compile(r'\b\d+(\.\d+)?\b')
 _TUPLE = re.compile(r'\([^()]*\)')
 
 
+_ELEM_REPR = re.compile(r"<Element '?([^' >]+)'? at 0x~>")
+
+
 def mask(text):
-    return _ADDR.sub('0x~', str(text))
+    # memory addresses, and the repr of an element where a message embeds it (ElementTree quotes the tag, lxml does not)
+    return _ELEM_REPR.sub(r'<Element \1 at 0x~>', _ADDR.sub('0x~', str(text)))
 
 
 def template(reason):
